@@ -53,6 +53,7 @@ def evidence(c):
               'inside a library call; counted as the union over all workers'),
         samples=samples,
         plans=st.get('plans', 0),
+        plans_with_adjacent_buffers_sharing_a_word=st.get('adjacent_plans', 0),
         schedule_executions=sched,
         scheduler_steps=st.get('events', 0),
         context_switches=st.get('switches', 0),
